@@ -668,6 +668,8 @@ class IPAddr6 (_AddrBase):
     if len(addr) == 1:
       return check(IPAddr6(addr[0]), 0)
     try:
+      if not (addr[1].isascii() and addr[1].isdigit()):
+        raise ValueError() # int() would take "+8", " 8", "1_0", ...
       wild = 128-int(addr[1])
     except:
       # Maybe they passed a netmask
@@ -863,6 +865,8 @@ def parse_cidr (addr, infer=True, allow_host=False):
       # Some bits in the wildcarded part are set, so we'll assume it's a host
       return check(addr, 0)
   try:
+    if not (addr[1].isascii() and addr[1].isdigit()):
+      raise ValueError() # int() would take "+8", " 8", "1_0", ...
     wild = 32-int(addr[1])
   except:
     # Maybe they passed a netmask
